@@ -124,6 +124,14 @@ func (ds *dataStore) moveStoreKeyUnlocked(srcKeyName, destKeyName string, dds *d
 	return
 }
 
+// Removes every key. The data store object itself stays in place, so every
+// client that has this database selected, is blocked on one of its keys or
+// watches one of its keys sees the flush - not only the caller.
+func (ds *dataStore) flushUnlocked() {
+	ds.data = newRedisDict()
+	ds.data.dirty = true
+}
+
 func (ds *dataStore) enterListBlock(keyName string) (ws *wakeSignal) {
 	ds.mu.Lock()
 	defer ds.mu.Unlock()
